@@ -20,6 +20,18 @@ CLAIMED = {
              'ground truth. Default (numpy) backend in the quick tier; other backends in the thorough tier where '
              'built. Known findings KF-C03-* are listed in known_findings.json.',
         ref='§3 C03'),
+    'C07': dict(
+        technique=TECH + 'override histories over aliased template objects vs a reference value dict, judged by a '
+                         'pristine observer process',
+        text='Seeded histories of update_var (scalar, per-node array, wildcards at any level; constants and initial '
+             'values; edge attributes), compile-time node_values/edge_values and deep copies over circuits whose nodes '
+             'share NodeTemplate/OperatorTemplate objects. After every prefix a pristine observer compiles a pickled '
+             'snapshot; a plain reference dict states the value of every node/op/var and edge: arguments and initial '
+             'state by frontend name (exact), vector field at probe states and a vectorized labelled run against the '
+             'reference network (1e-9). Sampling of histories and aliasing patterns.',
+        note='Trusted: reference semantics of each override op (documented meaning), RefNet. Path order of wildcard '
+             'targets is taken to be declaration order. Known finding KF-C07-stale-state-* confined to its stratum.',
+        ref='§3 C07'),
     'C13': dict(
         technique=TECH + 'interleaved user workflows in one process vs each workflow alone in a pristine fork '
                          '(refinement), with API/interrupt/I-O/RHS faults and cache wipes',
@@ -36,6 +48,19 @@ CLAIMED = {
              'tier. Generator respects documented contracts (in_place=True consumes a template; from_yaml caches by '
              'path).',
         ref='§3 C13'),
+    'C14': dict(
+        technique=TECH + 'histories of read-only/copy-making API calls (+ I/O faults in to_yaml) with structural and '
+                         'behavioural fingerprints after every op, behaviour judged by a pristine observer process',
+        text='A template with aliasing (shared operator/node objects, overrides, flat or hierarchical, Python- or '
+             'YAML-built) and a sibling sharing its objects go through seeded histories of operations documented as '
+             'non-mutating (run/get_run_func/get_jacobian_func with in_place=False, get_nodes, get_edges, get_edge, '
+             'collect_edges, get_node_template, __getitem__, to_yaml with and without injected OSError/torn write, '
+             'deepcopy, update_template). After EVERY op the deep-frozen structure of template and sibling must equal '
+             'the one at construction, a pristine observer must compile the pickled snapshot to the same model, and '
+             'repeated in_place=False calls must return the same result.',
+        note='Trusted: fork() before the history gives a pristine observer; pickling a shallow copy without _ir and run '
+             'bookkeeping preserves what the user declared. Known finding KF-C14-stale-run-bookkeeping (loud).',
+        ref='§3 C14'),
     'C19': dict(
         technique=TECH + 'stateful machine on the real DDEHistory vs a pure-Python reference history',
         text='Seeded exploration of update/query/caller-mutation/allocation-fault histories on the real DDEHistory '
@@ -48,7 +73,7 @@ CLAIMED = {
 }
 
 _P = 'check under construction in this session (planned as claimed, see DESIGN §0/§3); not decided yet'
-PENDING = {k: _P for k in ['C07', 'C08', 'C09', 'C10', 'C11', 'C14', 'C15']}
+PENDING = {k: _P for k in ['C08', 'C09', 'C10', 'C11', 'C15']}
 
 NA = {
     'C01': 'pure function of (model, state, parameters): no schedule, clock, fault or history in the statement; '
